@@ -386,9 +386,16 @@ def concurrent_tier(ctx):
             msgs.append({"method": m, "has_id": has_id, "id": rng.choice([0, i + 1, f"c{i}", -7, ""]) if has_id else None,
                          "start": rng.choice([0.0, 0.0, 0.01, 0.025])})
         ids = [m["id"] for m in msgs if m["has_id"]]
-        if len(set(map(repr, ids))) != len(ids):
+        same_ids = k % 3 == 0
+        if same_ids:
+            # several clients talk to one server and each counts its ids from the same start: requests in flight together
+            # carry the same id (each on its own session)
+            for m in msgs:
+                if m["has_id"]:
+                    m["id"] = (1, 0, "a", "", -7)[k % 5]
+        elif len(set(map(repr, ids))) != len(ids):
             continue
-        case = {"concurrent": msgs, "k": k}
+        case = {"concurrent": msgs, "k": k, "same_ids": same_ids}
 
         async def main():
             srv = build_server()
@@ -405,6 +412,8 @@ def concurrent_tier(ctx):
                 ph.register_method(name, mk(kind, delay))
             outs = [None] * len(msgs)
 
+            sessions = [ph.session_manager.create_session({"name": f"client-{i}"}, "2025-06-18") for i in range(len(msgs))] if same_ids else None
+
             async def one(i, m):
                 await asyncio.sleep(m["start"])
                 wire = {"jsonrpc": "2.0", "method": m["method"]}
@@ -412,7 +421,10 @@ def concurrent_tier(ctx):
                     wire["id"] = m["id"]
                 from chuk_mcp.protocol.messages.json_rpc_message import parse_message
                 try:
-                    outs[i] = ("ok", await ph.handle_message(parse_message(wire)))
+                    if sessions is not None:
+                        outs[i] = ("ok", await ph.handle_message(parse_message(wire), session_id=sessions[i]))
+                    else:
+                        outs[i] = ("ok", await ph.handle_message(parse_message(wire)))
                 except BaseException as e:  # noqa
                     if isinstance(e, (KeyboardInterrupt, SystemExit, asyncio.CancelledError)):
                         raise
